@@ -1317,14 +1317,23 @@ impl SparqlDatabase {
             .collect();
 
         for (triples, dict_arc, pref) in partial_results {
-            for t in triples {
+            // The chunk's ids are private to the chunk: translate every term through its
+            // lexical form into the database dictionary instead of merging the id maps.
+            let translated: Vec<Triple> = {
+                let mut self_dict = self.dictionary.write().unwrap();
+                let other_dict = dict_arc.read().unwrap();
+                triples
+                    .iter()
+                    .map(|t| Triple {
+                        subject: self_dict.encode(other_dict.decode(t.subject).unwrap_or("")),
+                        predicate: self_dict.encode(other_dict.decode(t.predicate).unwrap_or("")),
+                        object: self_dict.encode(other_dict.decode(t.object).unwrap_or("")),
+                    })
+                    .collect()
+            };
+            for t in translated {
                 self.add_triple(t);
             }
-            let mut self_dict = self.dictionary.write().unwrap();
-            let other_dict = dict_arc.read().unwrap();
-            self_dict.merge(&other_dict);
-            drop(other_dict);
-            drop(self_dict);
             for (k, v) in pref {
                 self.prefixes.insert(k, v);
             }
